@@ -34,6 +34,9 @@ def main(tier, replay=None):
         dict(name="expiry-slot-reuse", opts=[M, "msgs=l1+l1b", "inject=drain", "lifetime=50", "verdicts=KZ", "reorder=1", "signals=0"], bounds="0,0,0,%d" % (3 if q else 5), total=5),
         dict(name="expiry-lifetime0", opts=[M, "msgs=r1", "lifetime=0", "verdicts=KZ", "reorder=1", "signals=0"], bounds="0,0,0,%d" % (3 if q else 5), total=5),
         dict(name="restart-l3-conc1", opts=[M, "msgs=l3", "concl=1", "verdicts=KZ", "reorder=1"], bounds="0,0,0,%d" % (3 if q else 5), total=5),
+        dict(name="restart-message-in-last-split-directory", opts=[M, "msgs=r1", "verdicts=KZ", "reorder=1", "bucket=22"], bounds="0,0,0,%d" % (3 if q else 4), total=4),
+        dict(name="restart-message-in-first-split-directory", opts=[M, "msgs=l1", "verdicts=KZ", "reorder=1", "bucket=0"], bounds="0,0,0,%d" % (3 if q else 4), total=4),
+        dict(name="deferred-restart-with-one-failing-call", opts=["monitors=C15", "msgs=l1r1", "verdicts=ZKT", "reorder=1", "concl=2"] + (["maxticks=4", "signals=2"] if q else ["maxticks=6", "signals=2"]), bounds="0,1,0,2", total=3),
         dict(name="two-messages-order", opts=[M, "msgs=l1+r1b", "verdicts=KZ", "reorder=2", "signals=0"], bounds="0,0,0,%d" % (3 if q else 5), total=5),
     ]
     for f in fams:
@@ -45,4 +48,5 @@ def main(tier, replay=None):
                 "transitions = operations applied); every insertion order of n distinct keys drained by delmin" % top)
     res.assumptions = ["ages >= 2^32 s (136 years) are outside the statement", "daemon histories: real qmail-send under the virtual kernel and clock; monitors: no new pass for a deferred message before birth+(isqrt(age)+10|20)^2 unless ALRM or an unclean restart intervened, the daemon never sleeps past the earliest due time, a deferral of an unexpired message never finishes a recipient, an expired one does"]
     res.require_nonzero("evaluations", "states", "transitions", "passes_started", "reports_Z", "ticks", "expired_deferrals", "signal_ALRM", "clean_stops")
+    lib_conformance(res, rd, src, ['num'], tier, asan=True)
     return res.finish()
